@@ -100,7 +100,8 @@ def parents(p):
 
 def gen_ops(rng, present, n):
     ops = []
-    present = {p for p in present if not p.startswith("alias/") and p != "alias"}     # (the link may dangle after a rename)
+    # (operations name files by their own path, not through a directory link: the link may dangle after a rename)
+    present = {p for p in present if not p.startswith("alias/") and p != "alias" and "64/shared/" not in p}
     for _ in range(n):
         kind = rng.choice(["create", "modify", "delete", "rename", "create", "stamp"])
         if kind == "create" or not present:
@@ -127,6 +128,8 @@ def gen_ops(rng, present, n):
         ops.append("echo:hello %d" % rng.randrange(9))
     if rng.random() < 0.2:
         ops.append("progress:hello %d" % rng.randrange(9))      # output ending in a bare carriage return
+    if rng.random() < 0.15:
+        ops.append("accent:%d" % rng.randrange(9))              # both streams, each split inside a two-byte character
     return ops, present
 
 
@@ -135,7 +138,7 @@ TAMPERS = [None, None, "edit", "add", "delete", "rename", "rewrite", "excluded",
 
 def apply_file_tamper(rng, work, kind, opts=None):
     snap = covered(snapshot(work), dict(opts or {}, lstrip=None))
-    files = sorted(p for p in snap if not p.startswith("alias/"))
+    files = sorted(p for p in snap if not p.startswith("alias/") and "64/shared/" not in p)
     if kind == "add":
         where = ""
         if opts and opts.get("paths"):
